@@ -3,6 +3,9 @@ mod common;
 mod models;
 mod pbuilder;
 mod sepmodel;
+mod gen;
+mod prob;
+mod state;
 
 use common::Out;
 use std::io::Write;
@@ -45,6 +48,7 @@ fn main() {
         "pbuilder" => pbuilder::stream(&mut out, seed, thorough),
         "mbuilder" => sepmodel::stream_mbuilder(&mut out, seed, thorough),
         "model" => sepmodel::stream_model(&mut out, seed, thorough),
+        "state" => state::stream(&mut out, seed, thorough),
         _ => {
             eprintln!("unknown stream {}", stream);
             std::process::exit(2);
